@@ -163,6 +163,7 @@ func main() {
 		depthOv   = flag.Int("depth", 0, "override the enumeration depth of MC tasks (experiments)")
 		cpuprof   = flag.String("cpuprofile", "", "write a CPU profile (worker mode)")
 	)
+	free := flag.Int("free", 0, "supplementary pass: run every MC configuration of the tier N times FREE-RUNNING (real goroutines, shim in pass-through mode); build with -race")
 	flag.Parse()
 	if *cpuprof != "" {
 		if f, err := os.Create(*cpuprof); err == nil {
@@ -177,6 +178,8 @@ func main() {
 		}
 	case *replay != "":
 		os.Exit(doReplay(*replay))
+	case *free > 0:
+		os.Exit(doFree(*tier, *taskName, *free))
 	case *worker:
 		rc := doWorker(*tier, *taskName, *deadline, *depthOv)
 		pprof.StopCPUProfile()
